@@ -126,12 +126,13 @@ type vhScenario struct {
 	issuerOptional                                             bool // the scenario may omit the (schema-optional) Response Issuer
 	// expected: the assertions that are legitimately verifiable, in document order as the library must return them
 	// (direct children of the root; decrypted ones take the place the library gives them)
-	direct   []*vhA // direct-child plaintext assertions (document order)
-	enc      []*vhA // assertions carried inside direct-child EncryptedAssertion elements (document order)
-	encBad   int    // encrypted children whose plaintext is not an assertion / does not parse
-	hidden   []*vhA // assertions that are NOT direct children (wrapped / nested): must never be honoured
-	order    []*vhA // all honourable candidates in document order (plain and encrypted interleaved)
-	orderEnc []bool
+	direct    []*vhA // direct-child plaintext assertions (document order)
+	enc       []*vhA // assertions carried inside direct-child EncryptedAssertion elements (document order)
+	encBad    int    // encrypted children whose plaintext is not an assertion / does not parse
+	hiddenEnc int    // encrypted assertions that are NOT direct children of the Response
+	hidden    []*vhA // assertions that are NOT direct children (wrapped / nested): must never be honoured
+	order     []*vhA // all honourable candidates in document order (plain and encrypted interleaved)
+	orderEnc  []bool
 }
 
 func vhResponseRoot(s *vhScenario, tag string) *etree.Element {
@@ -208,6 +209,7 @@ func vhAddChild(s *vhScenario, i int, kinds int) {
 		w := s.root.CreateElement("samlp:Extensions")
 		if vFlag(p + ".wrapped.encrypted") {
 			w.AddChild(vhEncryptedEl(p+".enc", a.el))
+			s.hiddenEnc++
 		} else {
 			w.AddChild(a.el)
 		}
@@ -385,6 +387,7 @@ func vhSSO(maxKids, kinds int, modes int) {
 		}
 	}
 	vAssert("C01.at-least-one-assertion", len(resp.Assertions) >= 1)
+	vAssert("C07.encrypted-assertion-not-directly-under-the-response-is-rejected", s.hiddenEnc == 0)
 	// root fields come from the (verified) root
 	vAssert("C04,C08.root-fields-faithful", vAnd(vAnd(resp.ID == s.ID, resp.InResponseTo == s.InResponseTo), vAnd(resp.Destination == s.Destination, resp.Version == s.Version)))
 	vAssert("C04,C08.root-issuer-faithful", resp.Issuer != nil && resp.Issuer.Value == s.Issuer)
